@@ -65,6 +65,11 @@ fn positions_of<B: FA, H: ElementHasher<BaseField = B>>(proof: &Proof, desc: &Ar
 
 pub fn baseline<B: FA, H: ElementHasher<BaseField = B> + Send + Sync>(shape: &Shape, cell_budget: usize) -> Result<Option<Baseline>, Fail> {
     let inst = realize::<B>(shape, cell_budget);
+    if inst.weak_seed_binding() {
+        // see Instance::weak_seed_binding: such a proof is accepted under a changed context with
+        // probability 2^-(queries * log2(lde) + grinding), which is within its stated soundness error
+        return Ok(None);
+    }
     let desc = Arc::new(inst.desc.clone());
     let options = make_options(&inst.opts)?;
     let proof = match prove_with::<B, H, DefaultRandomCoin<H>>(&desc, &inst.trace, options, None) {
@@ -319,7 +324,7 @@ impl SubCheck for Structured {
 #[derive(Serialize, Deserialize, Clone, Debug)]
 pub struct AdaptCase {
     pub shape: Shape,
-    /// 0 remainder + c*V(x) ; 1 gkr None -> Some ; 2 trailing bytes in the Lagrange OOD block ; 3 nonce search
+    /// 0 remainder + c*V(x) ; 1 gkr None -> Some ; 2 trailing bytes in the Lagrange OOD block ; 3 other nonces ; 4 surplus node vector in an opening
     pub kind: u8,
     pub c: X,
     pub extra: Vec<u8>,
@@ -442,13 +447,53 @@ fn adapt_one<B: FA, H: ElementHasher<BaseField = B> + Send + Sync>(c: &AdaptCase
             let verdict = judge::<B, H>(&base, &mutated, obs);
             count(&verdict, "ood.lagrange+trailing-bytes", obs)
         },
+        4 => {
+            // a batch opening extended by a surplus (empty or filled) vector of authentication nodes:
+            // count byte + 1, vector appended, length prefix fixed up
+            let targets: Vec<&crate::dissect::Field> = base.fields.iter().filter(|f| f.path.ends_with(".paths") && f.len > 0).collect();
+            if targets.is_empty() {
+                return Ok(());
+            }
+            let f = targets[pick_index(c.extra.first().copied().unwrap_or(0) as u16 * 257, targets.len())];
+            let lf = base.fields.iter().find(|x| x.path == format!("{}.len", f.path));
+            let Some(lf) = lf else { return Ok(()) };
+            let filled = c.extra.len() % 2 == 1;
+            // digest size of this configuration = commitments bytes / number of digests
+            let com = base.fields.iter().find(|x| x.path == "commitments");
+            let o = &base.opts;
+            let layers = fri_schedule(base.desc.n() * o.blowup, o.blowup, o.folding, o.rem_deg).0;
+            let segs = if base.desc.aux.is_some() { 2 } else { 1 };
+            let digest = com.map(|c| c.len / (segs + 2 + layers)).unwrap_or(32);
+            let mut extra: Vec<u8> = vec![if filled { 1 } else { 0 }];
+            if filled {
+                extra.extend(std::iter::repeat(0x5a).take(digest));
+            }
+            if base.bytes[f.off] == 255 {
+                return Ok(());
+            }
+            let mut mutated = base.bytes.clone();
+            mutated[f.off] += 1;
+            let end = f.off + f.len;
+            mutated.splice(end..end, extra.iter().copied());
+            let new_len = (f.len + extra.len()) as u32;
+            mutated[lf.off..lf.off + 4].copy_from_slice(&new_len.to_le_bytes());
+            let what = format!("{}+surplus-node-vector", strip_index(&f.path));
+            let verdict = judge::<B, H>(&base, &mutated, obs);
+            count(&verdict, &what, obs)
+        },
         _ => {
-            // another nonce: search a few nonces; accepted ones must lead to the same positions (then
+            // other nonces; accepted ones must lead to the same positions (then
             // excluded) — exercises the exclusion logic itself
             let Some(nf) = base.fields.iter().find(|f| f.path == "pow_nonce") else { return Ok(()) };
-            for delta in 1..=8u64 {
+            let p64 = (fp.p & (u64::MAX as u128)) as u64;
+            let candidates: Vec<u64> = (1..=6u64)
+                .map(|delta| base.proof.pow_nonce.wrapping_add(delta.wrapping_mul(1 + c.c.0 as u64 % 1000)))
+                // nonces that differ by (multiples of) the field modulus or only in the top bit: a coin that
+                // reduces the nonce into one field element would not tell them apart
+                .chain([base.proof.pow_nonce.wrapping_add(p64), base.proof.pow_nonce.wrapping_add(p64.wrapping_mul(2)), base.proof.pow_nonce ^ (1 << 63)])
+                .collect();
+            for nonce in candidates {
                 let mut mutated = base.bytes.clone();
-                let nonce = base.proof.pow_nonce.wrapping_add(delta.wrapping_mul(1 + c.c.0 as u64 % 1000));
                 mutated[nf.off..nf.off + 8].copy_from_slice(&nonce.to_le_bytes());
                 let verdict = judge::<B, H>(&base, &mutated, obs);
                 count(&verdict, "pow_nonce", obs)?;
@@ -473,14 +518,14 @@ impl SubCheck for Adaptive {
         40
     }
     fn rule(&self) -> String {
-        "consistency-preserving substitutions computed from the verifier's query positions (obtained by replaying the transcript): the FRI remainder plus c times the vanishing polynomial of the queried last-layer points (whenever the number of distinct last-layer positions is below the remainder size), a GKR proof attached to a proof that does not use one, trailing bytes inside the Lagrange OOD block, other nonces; non-trivial = the substitution was applicable and judged".into()
+        "consistency-preserving substitutions computed from the verifier's query positions (obtained by replaying the transcript): the FRI remainder plus c times the vanishing polynomial of the queried last-layer points (whenever the number of distinct last-layer positions is below the remainder size), a GKR proof attached to a proof that does not use one, trailing bytes inside the Lagrange OOD block, other nonces (small offsets, + the field modulus, + twice the modulus, top bit), a surplus empty or filled node vector appended to a trace / constraint / FRI-layer opening with count byte and length prefix fixed up; non-trivial = the substitution was applicable and judged".into()
     }
     fn required_labels(&self, _t: Tier) -> Vec<String> {
         vec!["remainder-attack:possible".into()]
     }
     fn strategy(&self, tier: Tier) -> BoxedStrategy<AdaptCase> {
         let p = GenParams { max_log_n: tier.pick(6, 8), max_grinding: 4, fixed: None, allow_aux: true, allow_degenerate: false };
-        (shape_strategy(&p), 0u8..4, any::<u128>().prop_map(X), prop::collection::vec(any::<u8>(), 1..60))
+        (shape_strategy(&p), 0u8..5, any::<u128>().prop_map(X), prop::collection::vec(any::<u8>(), 1..60))
             .prop_map(|(shape, kind, c, extra)| AdaptCase { shape, kind, c, extra })
             .boxed()
     }
